@@ -1,7 +1,7 @@
 #!/usr/bin/env python3
 """Driver for the go-slug property checks (see DESIGN.md §2.2).
 
-usage: vcheck.py <ID> <quick|thorough> [--replay <path>] [--repo <dir>]
+usage: vcheck.py <ID> <quick|thorough> [--replay <path>]      (VERIF_REPO=<dir>: build against another go-slug checkout instead of /repo)
 
 exit 0: property held on everything explored (KNOWN-FINDING lines allowed)
 exit 1: VIOLATION property=<id> replay=<path>
@@ -70,6 +70,18 @@ def build(pkg, out, race, scratch):
     cmd = ["go", "test", "-c", "-o", out]
     if race:
         cmd.append("-race")
+    alt = os.environ.get("VERIF_REPO")
+    if alt and os.path.abspath(alt) != "/repo":
+        # build against another checkout of go-slug (a snapshot used by a background run): same go.mod,
+        # other replace target, handed to the go command as an alternative module file
+        modfile = os.path.join(scratch, "alt.mod")
+        if not os.path.exists(modfile):
+            with open(os.path.join(HARNESS, "go.mod")) as f:
+                mod = f.read()
+            with open(modfile, "w") as f:
+                f.write(mod.replace("=> /repo", "=> " + os.path.abspath(alt)))
+            shutil.copyfile(os.path.join(HARNESS, "go.sum"), os.path.join(scratch, "alt.sum"))
+        cmd.append("-modfile=" + modfile)
     cmd.append("./" + pkg)
     t0 = time.time()
     p = subprocess.run(cmd, cwd=HARNESS, env=goenv(), stdout=subprocess.PIPE, stderr=subprocess.STDOUT, text=True)
